@@ -73,6 +73,40 @@ class _NotSymbolic(Exception):
     pass
 
 
+class GenCM:
+    """the object contextlib.contextmanager(f)(*args) returns: one generator, advanced once on entry and once on exit"""
+
+    def __init__(self, gen):
+        self.gen = gen
+
+    def enter(self, I):
+        ok, v = I.gen_next(self.gen)
+        if not ok:
+            raise PyExc("RuntimeError", ("generator didn't yield",))
+        return v
+
+    def exit(self, I):
+        ok, _ = I.gen_next(self.gen)
+        if ok:
+            raise PyExc("RuntimeError", ("generator didn't stop",))
+
+    def throw(self, I, exc):
+        """True when the generator swallowed the exception"""
+        if self.gen.done:
+            return False
+        try:
+            self.gen.pygen.throw(exc)
+        except StopIteration:
+            self.gen.done = True
+            return True
+        except PyExc as e2:
+            self.gen.done = True
+            if e2 is exc:
+                return False
+            raise
+        raise PyExc("RuntimeError", ("generator didn't stop after throw()",))
+
+
 class Interp:
     def __init__(self, loader: Loader, path: PathState, hooks=None):
         self.loader = loader
@@ -443,7 +477,8 @@ class Interp:
         if isinstance(v, ClassVal):
             v = self.call(v, [], {})
         if isinstance(v, Obj):
-            return PyExc(v.cls.name, (), cls=v.cls)
+            a = v.attrs.get("args", ())
+            return PyExc(v.cls.name, tuple(a) if isinstance(a, (tuple, list)) else (), cls=v.cls)
         raise Unsupported(f"raise of {v!r}")
 
     def exc_matches(self, e: PyExc, tv):
@@ -497,7 +532,36 @@ class Interp:
                 if not self.exc_matches(e, tuple(cm[1])):
                     raise
             return
-        raise Unsupported(f"with statement over {cm!r}")
+        # the context-manager protocol: __enter__, body, __exit__(None, None, None) on every normal or control-flow exit;
+        # on an exception, generator-based managers get it thrown in (contextlib semantics); other managers: out of reach
+        if isinstance(cm, GenCM):
+            entered = cm.enter(self)
+        else:
+            try:
+                enter, exit_ = self.getattr(cm, "__enter__"), self.getattr(cm, "__exit__")
+            except PyExc:
+                raise Unsupported(f"with statement over {ops.describe(cm) if not isinstance(cm, tuple) else cm!r}") from None
+            entered = self.call(enter, [], {})
+        if item.optional_vars is not None:
+            self.assign(item.optional_vars, entered, frame)
+        try:
+            yield from self.exec_block(node.body, frame)
+        except PyExc as e:
+            if isinstance(cm, GenCM):
+                if cm.throw(self, e):
+                    return
+                raise
+            raise Unsupported("exception inside a with block of a class-based context manager") from None
+        except (ReturnSignal, BreakSignal, ContinueSignal):
+            if isinstance(cm, GenCM):
+                cm.exit(self)
+            else:
+                self.call(exit_, [None, None, None], {})
+            raise
+        if isinstance(cm, GenCM):
+            cm.exit(self)
+        else:
+            self.call(exit_, [None, None, None], {})
 
     def st_Assert(self, node, frame):
         if not self.truth(self.eval(node.test, frame)):
@@ -519,8 +583,17 @@ class Interp:
             self.setitem(self.eval(target.value, frame), self.eval_index(target.slice, frame), v)
         elif isinstance(target, (ast.Tuple, ast.List)):
             items = list(self.iterate(v))
-            if any(isinstance(e, ast.Starred) for e in target.elts):
-                raise Unsupported("starred assignment")
+            stars = [i for i, e in enumerate(target.elts) if isinstance(e, ast.Starred)]
+            if stars:
+                i, after = stars[0], len(target.elts) - stars[0] - 1
+                if len(items) < len(target.elts) - 1:
+                    raise PyExc("ValueError", ("not enough values to unpack",))
+                for e, x in zip(target.elts[:i], items[:i]):
+                    self.assign(e, x, frame)
+                self.assign(target.elts[i].value, list(items[i:len(items) - after]), frame)
+                for e, x in zip(target.elts[i + 1:], items[len(items) - after:]):
+                    self.assign(e, x, frame)
+                return
             if len(items) != len(target.elts):
                 raise PyExc("ValueError", ("unpack length mismatch",))
             for e, x in zip(target.elts, items):
@@ -554,6 +627,10 @@ class Interp:
             return g[name]
         if name in self.builtins:
             return self.builtins[name]
+        import builtins as _pybuiltins
+        if hasattr(_pybuiltins, name):
+            # a real Python builtin this interpreter does not implement: out of reach, NOT a NameError of the program
+            raise Unsupported(f"builtin {name} is not modelled")
         raise PyExc("NameError", (name,))
 
     def ex_Name(self, node, frame):
@@ -893,6 +970,9 @@ class Interp:
         o = Obj(cls)
         init = cls.lookup("__init__")
         if init is None:
+            if any(getattr(c, "name", None) in BUILTIN_EXC_BASES for c in cls.mro if not isinstance(c, ClassVal)):
+                o.attrs["args"] = tuple(args)           # BaseException.__init__ keeps the arguments
+                return o
             if args or kwargs:
                 raise PyExc("TypeError", (f"{cls.name}() takes no arguments",))
             return o
@@ -983,18 +1063,23 @@ class Interp:
     def _gen_body(self, fv, frame):
         # the generator's own name is on the function stack only while it runs
         g = self.exec_block(fv.node.body, frame)
+        thrown = None           # an exception thrown into the generator (generator.throw) is raised at its pending yield
         while True:
             self.func_stack.append(fv.qualname)
             try:
                 try:
-                    v = next(g)
+                    v = next(g) if thrown is None else g.throw(thrown)
                 except StopIteration:
                     return
                 except ReturnSignal:
                     return
             finally:
                 self.func_stack.pop()
-            yield v
+            thrown = None
+            try:
+                yield v
+            except PyExc as e:
+                thrown = e
 
     def gen_next(self, g: GeneratorVal):
         """Returns (True, value) or (False, None) when exhausted."""
@@ -1019,7 +1104,7 @@ class Interp:
         if isinstance(v, PropertyVal):
             if v.fget is None:
                 raise PyExc("AttributeError", ("unreadable attribute",))
-            return self.call_function(v.fget, [obj], {})
+            return self.call(v.fget, [obj], {}) if not hasattr(v.fget, "qualname") else self.call_function(v.fget, [obj], {})
         return v
 
     def getattr(self, o, name):
@@ -1096,7 +1181,10 @@ class Interp:
             if hit is not None and isinstance(hit[1], PropertyVal):
                 if hit[1].fset is None:
                     raise PyExc("AttributeError", (f"property '{name}' has no setter",))
-                self.call_function(hit[1].fset, [o, v], {})
+                if hasattr(hit[1].fset, "qualname"):
+                    self.call_function(hit[1].fset, [o, v], {})
+                else:
+                    self.call(hit[1].fset, [o, v], {})        # property(fget, fset) built from arbitrary callables
                 return
             h = self.hooks.get("setattr")
             if h is not None:
